@@ -112,6 +112,7 @@ func main() {
 		wg.Wait()
 		handlerLists(r)
 		authSock(r)
+		reRegistration(r)
 		helper(r, mon)
 		entropyFaults(r, mon)
 		seededPRNG(r, mon)
